@@ -73,6 +73,7 @@ inductive Expr where
   | fn (p : Pat) (b : Expr)                            -- *Function
   | paren (e : Expr)                                   -- ExprExpr
   | neg (e : Expr)                                     -- UnaryExpr "-"
+  | dot (e : Expr) (attr : String)                     -- DotExpr
   | bin (op : BinOp) (a b : Expr)                      -- BinExpr / CompareExpr
   | and_ (a b : Expr)                                  -- AndExpr
   | or_ (a b : Expr)                                   -- OrExpr
@@ -97,6 +98,7 @@ inductive Ast where
   | fn (p : Pat) (b : Ast)                             -- \p b
   | call (f a : Ast)                                   -- f(a)
   | neg (e : Ast)
+  | dot (e : Ast) (attr : String)                      -- e.attr
   | bin (op : BinOp) (a b : Ast)
   | and_ (a b : Ast)
   | or_ (a b : Ast)
@@ -257,6 +259,18 @@ def negV : Val → Res Val
   | .data (.num n) => mkNum (-n)
   | _ => .unsup
 
+/-- `DotExpr.Eval`: attribute of a tuple, or of the sole tuple member of a set (deprecated but accepted);
+everything else is an error (`&name` method attributes are outside the model) -/
+def getAttr (name : String) (as : List (String × V)) : Res Val :=
+  match lookupV name as with
+  | some v => .ok (.data v)
+  | none => if (lookupV ("&" ++ name) as).isSome then .unsup else .err
+
+def dotV (name : String) : Val → Res Val
+  | .data (.tup as) => getAttr name as
+  | .data (.set [.tup as]) => getAttr name as
+  | _ => .err
+
 def powNat (a : Int) : Nat → Int
   | 0 => 1
   | n + 1 => a * powNat a n
@@ -382,6 +396,7 @@ def evalE (call : Caller) : Expr → Env → Res Val
   | .fn p b, env => .ok (.clo env p b)
   | .paren e, env => evalE call e env
   | .neg e, env => evalE call e env >>= negV
+  | .dot e name, env => evalE call e env >>= dotV name
   | .bin op a b, env =>
     evalE call a env >>= fun va =>
     evalE call b env >>= fun vb =>
@@ -546,6 +561,7 @@ def compileG (fold poison : Bool) : Ast → Expr
   | .fn p b => .fn p (compileG fold poison b)
   | .call f a => .bin .call (compileG fold poison f) (compileG fold poison a)
   | .neg e => .neg (compileG fold poison e)
+  | .dot e name => .dot (compileG fold poison e) name
   | .bin op a b => .bin op (compileG fold poison a) (compileG fold poison b)
   | .and_ a b => .and_ (compileG fold poison a) (compileG fold poison b)
   | .or_ a b => .or_ (compileG fold poison a) (compileG fold poison b)
@@ -565,6 +581,7 @@ def poisoned : Expr → Bool
   | .fn _ b => poisoned b
   | .paren e => poisoned e
   | .neg e => poisoned e
+  | .dot e _ => poisoned e
   | .bin _ a b => poisoned a || poisoned b
   | .and_ a b => poisoned a || poisoned b
   | .or_ a b => poisoned a || poisoned b
